@@ -993,6 +993,9 @@ def fs(ctx: Ctx) -> List[Ob]:
         if fl and dl and fl[1] and dl[1]:
             ok = fl[1][1] == "attrgetter('name')" and dl[1][1] == "itemgetter(0)" and not_after(ctx, f, fl[0], dl[0]) and fl[0] is not dl[0] \
                 and bool(find(f"{fl[1][0]}.append($$o)", f.node)) and bool(find(f"{dl[1][0]}.append(($$c, $$o))", f.node))
+            if not ok and fl[0] is not dl[0] and not_after(ctx, f, fl[0], dl[0]) and fl[1][1] in ("attrgetter('name')", "attrgetter('entry.name')") \
+                    and dl[1][1] != "itemgetter(0)" and ("attrgetter(" in dl[1][1] or "itemgetter(" in dl[1][1] or dl[1][1].startswith("lambda")):
+                ok = None  # the directories are kept in another record (a NamedTuple, a dict): which field the key reads is not decided here
     T(f, "sorted: files first (by name), then directories (by path name)", ok, "files first, name-sorted, then sub-directories, name-sorted")
     # whatever the scan is split into: a sorted scan descends through a walker that can sort, an unsorted one through
     # a walker that can leave the order alone (the requested order holds at every depth, not only at the top)
